@@ -409,10 +409,30 @@ func (route *GrafanaNet) Dispatch(buf []byte) {
 	}
 
 	key := buf[:index]
-	hasher := fnv.New32a()
-	hasher.Write(key)
-	shard := int(hasher.Sum32() % uint32(route.Cfg.Concurrency))
+	shard := int(seriesHash(key) % uint32(route.Cfg.Concurrency))
 	route.dispatch(route.in[shard], buf, route.numBuffered, route.numDropBuffFull)
+}
+
+// seriesHash hashes a series key (name;tag1=v1;tag2=v2) such that the order of the tags does not matter:
+// a series must always go to the same shard, whatever order a client lists its tags in,
+// or its points could overtake each other. For a key without tags it is the fnv32a hash of the key.
+func seriesHash(key []byte) uint32 {
+	hasher := fnv.New32a()
+	var sum uint32
+	for {
+		part := key
+		i := bytes.IndexByte(key, ';')
+		if i >= 0 {
+			part = key[:i]
+		}
+		hasher.Reset()
+		hasher.Write(part)
+		sum += hasher.Sum32()
+		if i < 0 {
+			return sum
+		}
+		key = key[i+1:]
+	}
 }
 
 func (route *GrafanaNet) Flush() error {
